@@ -327,8 +327,9 @@ def leg_strace(ns, res, spec):
         for n in range(spec['n']):
             log = os.path.join(d, 'strace.log')
             if n % 4 == 3:
-                q = rng.choice(['select *', 'select a1, b2 join %s on a1 == b1' % rng.choice(['b'] + HOSTILE_IDS[:8]), 'update a2 = "Z"'])
-                cmd = [sys.executable, '-m', 'rbql', 'sqlite', db, '--input', rng.choice(['t', 't', HOSTILE_IDS[n % len(HOSTILE_IDS)] or 't']), '--query', q, '--output', os.path.join(d, 'o.csv')]
+                cli_ids = [x for x in HOSTILE_IDS if x and '\x00' not in x]     # argv cannot carry NUL
+                q = rng.choice(['select *', 'select a1, b2 join %s on a1 == b1' % rng.choice(['b'] + cli_ids[:8]), 'update a2 = "Z"'])
+                cmd = [sys.executable, '-m', 'rbql', 'sqlite', db, '--input', rng.choice(['t', 't', cli_ids[n % len(cli_ids)]]), '--query', q, '--output', os.path.join(d, 'o.csv')]
             else:
                 q = rng.choice(CSV_QUERIES)
                 cmd = [sys.executable, '-m', 'rbql', '--input', inp, '--delim', ',', '--policy', 'quoted', '--query', q, '--output', os.path.join(d, 'o.csv')]
